@@ -29,6 +29,9 @@ Definition x86_inner : nat := 2000.
 
 (* executable form of C06 on the implementation's output: AxCut linear machine vs. the emitted code *)
 Definition sem_check_x86 (p : prog) (cs : list xcode) (argss : list (list Z)) : option string :=
+  (* the property is about linearized programs: an input that is not linearity-checked (e.g. the output of the
+     pipeline for a program hit by the known fun2core capture finding) is outside its precondition; C05/C12 own it *)
+  if negb (lin_check_prog p) then None else
   fold_left (fun acc args =>
     match acc with
     | Some _ => acc
@@ -68,7 +71,7 @@ Definition codegen_x86_case (i r : sexp) : verdict :=
                       match m with
                       | Ok (mc, _, _) =>
                           match cmp_sexp (s_res_codes m) r' with
-                          | VOk _ => VOk (x86_tags mc ++ " runs" ++ n_to_string (N.of_nat (defined_runs p argss)))
+                          | VOk _ => VOk (x86_tags mc ++ " runs" ++ n_to_string (N.of_nat (defined_runs p argss)) ++ (if lin_check_prog p then "" else " not-lin-checked"))
                           | v => v
                           end
                       | Err _ => diff_window_b (show (s_res_codes m)) (show r')
